@@ -5,7 +5,7 @@ only model left) and handed to the real /bin/sh -c in the build directory, so th
 `meson --internal exe` wrapper (capture, feed, pickled commands) run; tests are run by the real `meson test --no-rebuild` (once, and again with --repeat 2).  The
 program that is finally started dumps its argv; it must be the arguments given: same bytes, same count, same order, with the
 documented rewrite (backslash -> / in custom-target commands)."""
-import json, os, pickle, random, shlex, shutil, subprocess, sys, tempfile
+import json, os, pickle, random, re, shlex, shutil, subprocess, sys, tempfile
 from bounded.util import chunked, pmap
 from bounded.quoting import ninja_eval
 
@@ -225,6 +225,86 @@ def _cc_chunk(chunk):
     return len(chunk), nt, fails
 
 
+def _cclayers_chunk(chunk):
+    """which compile statement receives which of the user's arguments: global, project and per-target arguments of several kinds of
+    target (executable, static / shared / both libraries with <lang>_static_args / <lang>_shared_args) — every argument given to a
+    target arrives exactly once at each of ITS compile statements and nowhere else"""
+    repo = os.environ.get('VERIF_REPO', '/repo')
+    fails, nt = [], 0
+    for seed in chunk:
+        rnd = random.Random(seed)
+        glob, proj = ['-DU_GLOBAL=1'], ['-DU_PROJECT=2']
+        targets = {}          # name -> (function, kwargs text pieces, {flavour: expected per-target args})
+        kinds = ['executable', 'static_library', 'shared_library', 'both_libraries', 'library']
+        rnd.shuffle(kinds)
+        lines = ["project('ccl', 'c', default_options: ['default_library=" + rnd.choice(['both', 'shared', 'static']) + "'])",
+                 'add_global_arguments(' + mstr(glob[0]) + ", language: 'c')", 'add_project_arguments(' + mstr(proj[0]) + ", language: 'c')"]
+        deflib = lines[0].split('default_library=')[1].split("'")[0]
+        for i, kind in enumerate(kinds[:rnd.randint(3, 5)]):
+            name = f't{i}'
+            own = [f'-DU_{name}_OWN={i}'] + ([f'-DU_{name}_SECOND'] if rnd.random() < 0.5 else [])
+            # (<lang>_static_args / <lang>_shared_args are keyword arguments of library() and both_libraries() only)
+            st = [f'-DU_{name}_STATIC'] if kind in ('both_libraries', 'library') and rnd.random() < 0.8 else []
+            sh = [f'-DU_{name}_SHARED'] if kind in ('both_libraries', 'library') and rnd.random() < 0.8 else []
+            use_files = rnd.random() < 0.3
+            kw = ['c_args: [' + ', '.join(mstr(a) for a in own) + ']'] if own else []
+            if st:
+                kw.append('c_static_args: [' + ', '.join(mstr(a) for a in st) + ']')
+            if sh:
+                kw.append('c_shared_args: [' + ', '.join(mstr(a) for a in sh) + ']')
+            lines.append(f"{kind}('{name}', '{name}.c', " + ', '.join(kw) + ')')
+            flav = {'executable': ['exe'], 'static_library': ['static'], 'shared_library': ['shared'], 'both_libraries': ['static', 'shared'],
+                    'library': {'both': ['static', 'shared'], 'shared': ['shared'], 'static': ['static']}[deflib]}[kind]
+            targets[name] = {f: own + (st if f == 'static' else sh if f == 'shared' else []) for f in flav}
+        d = tempfile.mkdtemp(prefix='c03cl')
+        try:
+            src, build = os.path.join(d, 'src'), os.path.join(d, 'b')
+            os.makedirs(src)
+            open(os.path.join(d, 'ccdump.py'), 'w').write(CCDUMP)
+            cc = os.path.join(d, 'ccwrap')
+            open(cc, 'w').write(CCWRAP % (sys.executable, d))
+            os.chmod(cc, 0o755)
+            for name in targets:
+                open(os.path.join(src, name + '.c'), 'w').write(('int main(void) { return 0; }\n' if 'exe' in targets[name] else f'int f_{name}(void) {{ return 0; }}\n'))
+            open(os.path.join(src, 'meson.build'), 'w').write('\n'.join(lines) + '\n')
+            env = dict(os.environ, NINJA=stub_ninja(d), CC=cc)
+            env.pop('C03_DUMP', None)
+            r = subprocess.run([sys.executable, os.path.join(repo, 'meson.py'), 'setup', build, src], capture_output=True, text=True, env=env)
+            case = {'generator_seed': seed, 'meson.build': lines}
+            if r.returncode != 0:
+                fails.append({'case': case, 'stage': 'argv-layers', 'detail': 'setup failed: ' + (r.stdout + r.stderr)[-300:]})
+                continue
+            rules, builds = parse_ninja(open(os.path.join(build, 'build.ninja'), encoding='utf-8').read())
+            seen = set()
+            for j, b in enumerate(x for x in builds if x['rule'] == 'c_COMPILER'):
+                out = b['outs'].split(' ')[0]
+                m_ = re.match(r'(?:lib)?(t\d)(\.a|\.so)?\.p/', out)
+                if not m_:
+                    continue
+                name = m_.group(1)
+                flavour = {'.a': 'static', '.so': 'shared', None: 'exe'}[m_.group(2)]
+                nt += 1
+                seen.add((name, flavour))
+                dump = os.path.join(d, f'cc{j}.json')
+                subprocess.run(['/bin/sh', '-c', statement_command(rules, b)], cwd=build, capture_output=True, text=True, env=dict(env, C03_DUMP=dump), timeout=60)
+                if not os.path.exists(dump):
+                    fails.append({'case': case, 'stage': 'argv-layers', 'detail': f'{out}: the compiler driver was not started'})
+                    continue
+                got = [a for a in json.load(open(dump)) if a.startswith('-DU_')]
+                want = targets.get(name, {}).get(flavour)
+                if want is None:
+                    fails.append({'case': case, 'stage': 'argv-layers', 'detail': f'{out}: a compile statement for a {flavour} flavour of {name} that the build definition does not ask for'})
+                elif sorted(got) != sorted(glob + proj + want) or [a for a in got if a in want] != want:
+                    fails.append({'case': case, 'stage': 'argv-layers', 'detail': f'{out} ({flavour} flavour of {name}): the compiler receives the user arguments {got!r}; the build definition gives it {glob + proj + want!r} (each once, per-target ones in the order given)'})
+            for name, fl in targets.items():
+                for f in fl:
+                    if (name, f) not in seen:
+                        fails.append({'case': case, 'stage': 'argv-layers', 'detail': f'no compile statement for the {f} flavour of {name}'})
+        finally:
+            shutil.rmtree(d, ignore_errors=True)
+    return len(chunk), nt, fails
+
+
 def stub_ninja(d):
     p = os.path.join(d, 'stub', 'ninja')
     os.makedirs(os.path.dirname(p), exist_ok=True)
@@ -322,10 +402,16 @@ def run(REG, tier, seed, jobs):
     ccpart = {'name': 'C03/bounded/compiler-and-linker-argv-through-meson-setup', 'function': 'meson setup (C project, gcc behind a recording wrapper): c_args / link_args',
               'bound': f'{m} generated C projects: 3 of {len(CARGS)} per-target c_args and 2 of {len(LARGS)} link_args with blanks, quotes, $, #, ;, *, backslashes, non-ASCII; the compile and link statements of build.ninja are evaluated by a mini ninja reader and executed by /bin/sh',
               'evaluations': ev2, 'distinct_nontrivial': nt2, 'rule': 'every compile / link statement', 'exhaustive': False, 'failures': fails2}
-    return {'parts': [ccpart, {'name': 'C03/bounded/argv-end-to-end-through-meson-setup', 'function': 'meson setup (ninja back end, stub ninja): custom_target / run_target / test commands',
+    k = 10 if tier == 'quick' else 150
+    ev3, nt3, fails3 = pmap(_cclayers_chunk, chunked(iter([seed * 15485863 + i for i in range(k)]), 1), jobs)
+    clpart = {'name': 'C03/bounded/argument-layers-per-target-flavour', 'function': 'meson setup (C project, gcc behind a recording wrapper): global / project / per-target / per-flavour arguments',
+              'bound': f'{k} generated C projects of 3-5 targets (executable, static / shared / both libraries, library() under each default_library) with global, project, per-target c_args and c_static_args / c_shared_args: every compile statement executed, the -DU_* arguments it receives compared with what the build definition gives that flavour of that target',
+              'evaluations': ev3, 'distinct_nontrivial': nt3, 'rule': 'every compile statement', 'exhaustive': False, 'failures': fails3}
+    return {'parts': [ccpart, clpart, {'name': 'C03/bounded/argv-end-to-end-through-meson-setup', 'function': 'meson setup (ninja back end, stub ninja): custom_target / run_target / test commands',
                        'bound': f'{n} generated projects x 29 commands (5 of them pickled commands differing only in their argument boundaries): 1-3 arguments over {len(ARGS)} strings (blanks, quotes, $, #, ;, globs, backslashes, non-ASCII, tab, newline, ...) in 6 modes (plain, capture, env, feed, run_target, test)',
                        'evaluations': ev, 'distinct_nontrivial': nt, 'rule': 'every command', 'exhaustive': False, 'failures': fails}]}
 
 
 CHECKS = {'C03/bounded/compiler-and-linker-argv-through-meson-setup': (_cc_chunk, lambda c: c['generator_seed']),
+          'C03/bounded/argument-layers-per-target-flavour': (_cclayers_chunk, lambda c: c['generator_seed']),
           'C03/bounded/argv-end-to-end-through-meson-setup': (_argv_chunk, lambda c: c['generator_seed'])}
